@@ -90,6 +90,21 @@ def onTermsUpdated (c : Ctl) (ch : Chain) : Ctl :=
   let l := load ch
   if c.run.isSome then { c with err := l.2 } else { c with terms := l.1, err := l.2 }
 
+/-! ### the same handlers when the node refuses the `eth_call` (a transient RPC failure): the chain cannot be read -/
+
+/-- purchase event, chain unreadable: a running fulfilment is left alone (the handler returns before it reads);
+otherwise nothing starts and the error is recorded -/
+def onPurchasedNoRpc (c : Ctl) : Ctl := if c.run.isSome then { c with err := false } else { c with err := true }
+
+/-- close event, chain unreadable: the fulfilment is stopped all the same; the terms held stay as they were -/
+def onClosedNoRpc (c : Ctl) : Ctl := { c with run := none, err := true }
+
+/-- destination update, chain unreadable: nothing is known about the new destination — nothing is touched, the error is recorded -/
+def onDestUpdatedNoRpc (c : Ctl) : Ctl := { c with err := true }
+
+/-- terms update, chain unreadable -/
+def onTermsUpdatedNoRpc (c : Ctl) : Ctl := { c with err := true }
+
 /-- a fresh controller (start-up, restart): the factory hands it the terms without a destination -/
 def boot (ch : Chain) (now : Int) : Ctl :=
   let t : Terms := { purchased := ch.purchased, startedAt := ch.startedAt, len := ch.len, speed := ch.speed }
@@ -99,6 +114,7 @@ def boot (ch : Chain) (now : Int) : Ctl :=
 /-- the events of one contract's life as the node sees them -/
 inductive Ev where
   | purchased | closed | destUpdated | termsUpdated | restart | tick
+  | purchasedNoRpc | closedNoRpc | destUpdatedNoRpc | termsUpdatedNoRpc    -- the event arrives while the node refuses calls
 deriving Repr, DecidableEq
 
 /-- one event, handled at `now` with the chain answering `ch`: the watcher first stops by itself if its time
@@ -112,6 +128,10 @@ def apply (c : Ctl) (e : Ev) (ch : Chain) (now : Int) : Ctl :=
   | .termsUpdated => onTermsUpdated c ch
   | .restart => boot ch now
   | .tick => c
+  | .purchasedNoRpc => onPurchasedNoRpc c
+  | .closedNoRpc => onClosedNoRpc c
+  | .destUpdatedNoRpc => onDestUpdatedNoRpc c
+  | .termsUpdatedNoRpc => onTermsUpdatedNoRpc c
 
 /-- a whole history: each event with what the chain answers at that moment and the time -/
 def runHist (c : Ctl) (h : List (Ev × Chain × Int)) : Ctl := h.foldl (fun c x => apply c x.1 x.2.1 x.2.2) c
